@@ -15,13 +15,13 @@ variable {K : Type} [Lean.Grind.Field K] [BEq K] [LawfulBEq K]
 /-- a successful in-place conversion: the label is the target and the SI magnitude is kept -/
 theorem convertToUnits_ok (pre : Prefixes K) (t : Lut K) (st : K × UnitV K) (tg : UnitV K)
     (hd : st.2.dim = tg.dim) (hs : tg.scale ≠ 0) :
-    ∃ v, convertToUnits pre t st tg = .ok (v, tg) ∧ baseOf pre t (v, tg) = baseOf pre t st := by
+    ∃ v, convertToUnits pre t st tg = .ok (v, tg) ∧ siMagnitude pre t (v, tg) = siMagnitude pre t st := by
   obtain ⟨x, u⟩ := st
   obtain ⟨f, hf, happ⟩ := getConversionFactor_is_affine pre t u tg hd x
   have h1 := (routes_agree pre t u tg x).1
   have h2 := (routes_agree pre t u tg x).2.2 f hf
   refine ⟨applyFactor f x, by rw [h1, h2], ?_⟩
-  simp only [baseOf, UnitV.prefOffset, happ, convFactorP]
+  simp only [siMagnitude, UnitV.prefOffset, happ, convFactorP]
   have hd' : u.dim = tg.dim := hd
   rw [← hd']
   exact conv_preserves_base _ _ _ _ _ hs
